@@ -80,7 +80,7 @@ OVERRIDES = {"armi.nuclearDataIO.cccc.compxs:csc_matrix": "CscStandIn"}
 TAGS = ["numComps", "numGroups", "fileWideChiFlag", "numFissComps", "maxUpScatterGroups", "maxDownScatterGroups", "numDelayedFam", "maxScatteringOrder",
         "reservedFlag1", "reservedFlag2"]
 PRIMARY = ["absorption", "total", "removal", "transport", "n2n"]
-DIFF = ["powerConvMult", "d1Multiplier", "d1Additive", "d2Additive", "d3Multiplier", "d3Additive"]
+DIFF = ["powerConvMult", "d1Multiplier", "d1Additive", "d2Additive", "d3Multiplier", "d3Additive", "d2Multiplier"]  # the last one got its own entry with fix F114
 
 
 def bands(ng, full):
@@ -113,7 +113,7 @@ def compxs_library(ncomp, ng, maxord, full, ispec, x, w):
         rm = reg.metadata
         rm["chiFlag"], rm["numUpScatterGroups"], rm["numDownScatterGroups"] = ispec[k], list(nup), list(ndn)
         for i in range(len(DIFF)):
-            rm[DIFF[i]] = [w[k][i] + g for g in range(ng)]
+            rm[DIFF[i]] = [(w[k][i] if i < 6 else w[k][1] + 0.5) + g for g in range(ng)]  # d2Multiplier: a value of its own
         for i in range(len(PRIMARY)):
             reg.macros[PRIMARY[i]] = np.array([w[k][6 + i] + g for g in range(ng)])
         if ispec[k] > 0:
